@@ -375,3 +375,26 @@ func msgLabel(p *Profile, m int) string {
 	}
 	return fmt.Sprintf("msg%d", m)
 }
+
+// msgNumOfType: t is one of the message struct types of msgsTypes.
+func (w *World) msgNumOfType(t types.Type) (int, bool) {
+	n, ok := t.(*types.Named)
+	if !ok {
+		return 0, false
+	}
+	for k, mi := range w.profile().Msgs {
+		if types.Identical(mi.Named, n) {
+			return k, true
+		}
+	}
+	return 0, false
+}
+
+func (w *World) profileMsgNums() []int {
+	var out []int
+	for k := range w.profile().Msgs {
+		out = append(out, k)
+	}
+	sort.Ints(out)
+	return out
+}
